@@ -550,6 +550,14 @@ pub fn exec_op(ctx: &Arc<Ctx>, op: &Op, caller: usize, nested: bool, local: &mut
             let done = Done(ctx.clone());
             obj.desync(move |p| { let _d = done; run_body(&c2, oid, &body, p, caller); });
         }
+        Op::SyncOwned(_, body) => {
+            // the program's handle is given up: `obj` (this caller's clone) is the last one while sync runs
+            { let t = ctx.objs[q].lock().unwrap().take(); drop(t); }
+            desync::verif::log("api", "DROPOBJ", q, String::new());
+            ctx.with_op(oid, |r| r.accepted = true);
+            let got = obj.sync(|p| { run_body(&c2, oid, body, p, caller); oid });
+            check_ok_token(ctx, oid, "C04", Some(got));
+        }
         Op::Sync(_, body) => {
             ctx.with_op(oid, |r| r.accepted = true);
             let got = obj.sync(|p| { run_body(&c2, oid, body, p, caller); oid });
@@ -776,7 +784,7 @@ pub fn pipe_oracles(ctx: &Arc<Ctx>) {
     for c in ctx.prog.callers.iter() { for o in c { match o {
         Op::PipeIn(q, k) => { kind.insert(*k, ('I', *q)); }
         Op::Pipe(q, k, _) => { kind.insert(*k, ('J', *q)); }
-        Op::DropObj(q) | Op::PanicDrop(q) => { dropped_obj.insert(*q); }
+        Op::DropObj(q) | Op::PanicDrop(q) | Op::SyncOwned(q, _) => { dropped_obj.insert(*q); }
         Op::DropStream | Op::DropStreamInJob(_) => { stream_dropped = true; }
         Op::Consume(0) => { for (k, _) in kind.iter() { consumed_all.insert(*k); } }
         _ => {}
